@@ -210,7 +210,8 @@ def poCfg : BaseCfg where
 
 def poGetNext (s : Array Nat) (off : Nat) : Entry := getNext poCfg s off
 
-/-- sequential `str.replace` (non-overlapping, left to right); `skip` = characters of a match still to drop -/
+/-- `str.replace` (non-overlapping, left to right); `skip` = characters of a match still to drop.
+    (no longer used by `eval_stringlist`, which unescapes in one pass since /repo b81665f) -/
 def replaceAllAux (pat rep : List Nat) : Nat → List Nat → List Nat
   | _, [] => []
   | skip + 1, _ :: t => replaceAllAux pat rep skip t
@@ -220,16 +221,42 @@ def replaceAllAux (pat rep : List Nat) : Nat → List Nat → List Nat
 
 def replaceAll (pat rep : List Nat) (l : List Nat) : List Nat := replaceAllAux pat rep 0 l
 
-/-- `eval_stringlist` on one fragment -/
-def poUnescape (l : List Nat) : List Nat :=
-  let l := replaceAll [92, 92] [92] l
-  let l := replaceAll [92, 116] [9] l
-  let l := replaceAll [92, 114] [13] l
-  let l := replaceAll [92, 110] [10] l
-  replaceAll [92, 34] [34] l
+/-- `re.sub(pattern, callback, s)` with a callback that may raise (`none`) -/
+def subGo (s : Array Nat) (f : Nat → St → Option (List Nat)) : List (Nat × St) → Nat → Option (List Nat)
+  | [], last => some (slice s last s.size)
+  | (q, st) :: rest, last =>
+    match f q st, subGo s f rest st.pos with
+    | some a, some b => some (slice s last q ++ a ++ b)
+    | _, _ => none
 
-def poEval (s : Array Nat) (frags : List (Nat × Nat)) : List Nat :=
-  (frags.map (fun (a, b) => poUnescape (slice s a b))).flatten
+def subWithOpt (s : Array Nat) (r : Re) (f : Nat → St → Option (List Nat)) : Option (List Nat) :=
+  subGo s f (finditer s r) 0
+
+/-- the callback `lambda m: escapes[m.group(1)]`; `none` = KeyError -/
+def poEscapeCb (s : Array Nat) (_q : Nat) (st : St) : Option (List Nat) :=
+  match st.group 1 with
+  | some (a, b) =>
+    match slice s a b with
+    | [c] => (Gen.Tables.poEscapes.find? (·.1 == c)).map (fun p => [p.2])
+    | _ => none
+  | none => none
+
+/-- `eval_stringlist` on one fragment: `reEscape.sub(lambda m: escapes[m.group(1)], line)`; `none` = raises -/
+def poUnescape (l : List Nat) : Option (List Nat) :=
+  let s := l.toArray
+  subWithOpt s parser_po_reEscape (poEscapeCb s)
+
+/-- `"".join(... for line in lines)` -/
+def poEval (s : Array Nat) (frags : List (Nat × Nat)) : Option (List Nat) :=
+  (frags.mapM (fun (a, b) => poUnescape (slice s a b))).map List.flatten
+
+/-- `poEval` as a total function for the models that only need the key text.  The `none`
+    branch (KeyError in `escapes[...]`) is unreachable: `C02.po_unescape_is_spec` proves
+    `poUnescape v = some _` for every text. -/
+def poEvalT (s : Array Nat) (frags : List (Nat × Nat)) : List Nat :=
+  match poEval s frags with
+  | some t => t
+  | none => []
 
 /-! ### format dispatch -/
 
